@@ -249,6 +249,9 @@ type CorreOTSendResult struct {
 // A single setup can be used for multiple runs of the protocol, but it's important
 // that ctxHash be initialized with some kind of nonce in that case.
 func CorreOTSend(ctxHash *hash.Hash, setup *CorreOTSendSetup, batchSize int, msg *CorreOTReceiveMessage) (*CorreOTSendResult, error) {
+	if msg == nil {
+		return nil, errors.New("CorreOTSend: message is missing")
+	}
 	batchSizeBytes := batchSize >> 3
 
 	// Doing a keyed hash for our PRG is faster than cloning a forked hash many times
